@@ -3,6 +3,7 @@ package c02
 import (
 	"fmt"
 	"math"
+	"strings"
 	"testing"
 
 	"gonum.org/v1/gonum/blas/blas64"
@@ -91,6 +92,17 @@ func checkQP3(c qp3Case) *vk.Failure {
 		call := fmt.Sprintf("Dgeqp3(m=%d,n=%d,lda=%d,nfixed=%d,lwork=%d[%s],query=%d)", m, n, lda, nfxd, lw, lwNames[mode], q)
 		if fl := vk.MustReturn("geqp3-panics", func() { impl.Dgeqp3(m, n, f.sl(), lda, jp.sl(), tau.sl(), w.sl(), lw) }); fl != nil {
 			fl.Msg = call + ": " + fl.Msg
+			if nfxd > 0 && blocked && lw < q && strings.Contains(fl.Msg, "insufficient length of f") {
+				// Known defect: the reduced block size is computed from lwork-2*sn
+				// (sn = number of free columns) but the work layout reserves 2*n
+				// entries for the column norms, so with leading columns the F block
+				// handed to Dlaqps can be up to 2*nfxd entries short.
+				fl.Key = "geqp3-leading-columns-reduced-lwork-panics"
+				if deferred == nil {
+					deferred = fl
+				}
+				continue
+			}
 			return fl
 		}
 		if fl := first(f.checkPad(call), jp.checkPad(call), tau.checkPad(call), deferOverrun(w.check(call))); fl != nil {
